@@ -691,6 +691,16 @@ func (m *Dense) Kronecker(a, b Matrix) {
 	rb, cb := b.Dims()
 
 	m.reuseAsNonZeroed(ra*rb, ca*cb)
+	aU, _ := untransposeExtract(a)
+	bU, _ := untransposeExtract(b)
+	m.checkOverlapMatrix(aU)
+	m.checkOverlapMatrix(bU)
+	if m == aU || m == bU {
+		// The receiver is one of the factors (the other one is 1×1).
+		var restore func()
+		m, restore = m.isolatedWorkspace(m)
+		defer restore()
+	}
 	for i := 0; i < ra; i++ {
 		for j := 0; j < ca; j++ {
 			m.slice(i*rb, (i+1)*rb, j*cb, (j+1)*cb).Scale(a.At(i, j), b)
